@@ -18,9 +18,11 @@ package croncontroller
 
 import (
 	"context"
+	"sync"
 	"sync/atomic"
 
 	"github.com/pkg/errors"
+	"k8s.io/apimachinery/pkg/types"
 	utilruntime "k8s.io/apimachinery/pkg/util/runtime"
 	"k8s.io/client-go/tools/cache"
 	"k8s.io/client-go/util/workqueue"
@@ -67,6 +69,27 @@ type Context struct {
 	// JobConfigs into its schedule. JobConfigs added after that are flushed
 	// through updatedConfigs.
 	scheduleInitialized uint32
+
+	// loadedConfigs holds the JobConfigs (key to UID) that the CronWorker loaded
+	// into its schedule when it was initialized. The informer notifies a handler
+	// of existing objects with an add event as well, possibly after the schedule
+	// was initialized: flushing them would discard the schedules they missed.
+	loadedConfigs   map[string]types.UID
+	loadedConfigsMu sync.Mutex
+}
+
+// takeLoadedConfig returns true if the JobConfig was loaded into the schedule when
+// it was initialized, and forgets about it.
+func (c *Context) takeLoadedConfig(rjc *execution.JobConfig) bool {
+	key, err := cache.MetaNamespaceKeyFunc(rjc)
+	if err != nil {
+		return false
+	}
+	c.loadedConfigsMu.Lock()
+	defer c.loadedConfigsMu.Unlock()
+	uid, ok := c.loadedConfigs[key]
+	delete(c.loadedConfigs, key)
+	return ok && uid == rjc.GetUID()
 }
 
 // NewContext returns a new Context.
